@@ -56,10 +56,14 @@ def run_case(case, rng):
     Vstar = {s: float(sol.V[i]) for i, s in enumerate(arr.S)}
     tol = 1e-7 * scale
 
+    warm = dict(on=False)
+
     class Probe(LAOStarEventListener):
         iters = 0
 
         def main_lao_star_loop(self, localvars):
+            if warm["on"]:
+                return
             Probe.iters += 1
             case.count("listener_iterations")
             g = localvars["explicit_graph"]
@@ -72,6 +76,18 @@ def run_case(case, rng):
 
     planner = LAOStar(heuristic=lambda s: h[s], randomize_action_order=rao,
                       randomize_nextstate_order=rno, event_listener_class=Probe, seed=seed)
+    if rng.random() < 0.25:
+        # the same planner object first plans on a sibling problem over the same labels with one more absorbing
+        # state; nothing of that run may leak into the judged one
+        import copy
+        sib = copy.deepcopy(sp)
+        extra = [s for s in sib.states if s not in sib.flag]
+        if extra:
+            sib.flag = set(sib.flag) | {rng.choice(extra)}
+            warm["on"] = True
+            case.call("LAOStar.plan_on(sibling)", planner.plan_on, Bd.build(sib, rep))
+            warm["on"] = False
+            case.count("planner_reused")
     res = case.call("LAOStar.plan_on", planner.plan_on, mdp, facts=dict(gamma=gamma, heuristic=hk))
     case.count("laostar_calls")
     if res is case.FAIL:
